@@ -7,6 +7,7 @@
 """
 import atexit
 import hashlib
+import itertools
 import json
 import threading
 import os
@@ -27,6 +28,7 @@ TLA_CP = "/opt/veriftools/tla/tla2tools.jar:/opt/veriftools/tla/CommunityModules
 NCPU = os.cpu_count() or 4
 
 _scratch = None
+_scratch_lock = threading.Lock()
 
 
 class MachineryError(Exception):
@@ -37,10 +39,11 @@ class MachineryError(Exception):
 def scratch():
     """Per-process scratch directory outside /repo and /verif, removed at exit."""
     global _scratch
-    if _scratch is None:
-        base = os.environ.get("VERIF_SCRATCH", tempfile.gettempdir())
-        _scratch = tempfile.mkdtemp(prefix="bsverif-", dir=base)
-        atexit.register(lambda: shutil.rmtree(_scratch, ignore_errors=True))
+    with _scratch_lock:
+        if _scratch is None:
+            base = os.environ.get("VERIF_SCRATCH", tempfile.gettempdir())
+            _scratch = tempfile.mkdtemp(prefix="bsverif-", dir=base)
+            atexit.register(lambda: shutil.rmtree(_scratch, ignore_errors=True))
     return _scratch
 
 
@@ -153,6 +156,12 @@ class TlcResult:
 
 
 _tlc_counter = [0]
+_uniq = itertools.count(1)
+
+
+def _tmp_suffix():
+    """Unique per call, not only per process: checks build and run TLC from several threads of one process."""
+    return ".tmp%d-%d" % (os.getpid(), next(_uniq))
 
 
 def tlc(module, cfg=None, env=None, workers=None, timeout=900, simulate=None, depth=None,
@@ -160,8 +169,10 @@ def tlc(module, cfg=None, env=None, workers=None, timeout=900, simulate=None, de
     """Run TLC on spec/<module>.tla with spec/<cfg>.  Returns TlcResult.
     allow: acceptable exit codes; anything else raises MachineryError (a broken model is never a verdict)."""
     _tlc_counter[0] += 1
-    meta = os.path.join(scratch(), "tlc-meta-%d-%d" % (os.getpid(), _tlc_counter[0]))
-    cmd = ["java", "-XX:+UseParallelGC", "-Xmx" + xmx]
+    meta = os.path.join(scratch(), "tlc-meta-%d-%d" % (os.getpid(), next(_uniq)))
+    jtmp = os.path.join(scratch(), "jtmp")  # TLC leaves an (empty) tlc-<n> directory per run in java.io.tmpdir
+    os.makedirs(jtmp, exist_ok=True)
+    cmd = ["java", "-XX:+UseParallelGC", "-Xmx" + xmx, "-Djava.io.tmpdir=" + jtmp]
     if xss:
         cmd.append("-Xss" + xss)
     if dfs:
@@ -336,7 +347,7 @@ def build(name, srcs, defines=(), groups=("msgpack", "csv", "common"), libs=(), 
         path, rel = u
         obj = os.path.join(rd, "%s-%s.o" % (rel.replace("/", "_"), fl))
         if not os.path.exists(obj):
-            tmp = obj + ".tmp%d" % os.getpid()
+            tmp = obj + _tmp_suffix()
             p = subprocess.run([cxx] + flags + inc + ["-c", path, "-o", tmp], stdout=subprocess.PIPE,
                                stderr=subprocess.STDOUT, text=True)
             if p.returncode != 0:
@@ -346,7 +357,7 @@ def build(name, srcs, defines=(), groups=("msgpack", "csv", "common"), libs=(), 
 
     with ThreadPoolExecutor(max_workers=NCPU) as ex:
         objs = list(ex.map(comp, units))
-    tmp = exe + ".tmp%d" % os.getpid()
+    tmp = exe + _tmp_suffix()
     p = subprocess.run([cxx] + flags + objs + ["-o", tmp] + list(libs) + ["-lpthread"], stdout=subprocess.PIPE,
                        stderr=subprocess.STDOUT, text=True)
     if p.returncode != 0:
@@ -535,7 +546,7 @@ def validate_traces(module, lines, cfg=None, shards=None, timeout=900, env=None,
         part = lines[i::shards]
         if not part:
             continue
-        p = os.path.join(scratch(), "trace-%s-%d-%d.ndjson" % (module, os.getpid(), len(files) + 1000 * _tlc_counter[0]))
+        p = os.path.join(scratch(), "trace-%s-%d-%d.ndjson" % (module, os.getpid(), next(_uniq)))
         with open(p, "w") as f:
             f.write("\n".join(part) + "\n")
         files.append((p, len(part)))
